@@ -1,6 +1,6 @@
 module verifharness
 
-go 1.19
+go 1.20
 
 require (
 	github.com/jsightapi/jsight-api-go-library v0.0.0
